@@ -2,8 +2,9 @@ package main
 
 // phaseConcurrent (engine E1): 2-3 requests tokenize / detokenize overlapping values at the same
 // time through one Pseudoanonymizer on one shared token store. Scheduling points: every
-// TokenStorage call (Save / Get / Stat) - the real stores make each call atomic with their own
-// lock or transaction, so these are exactly the points at which requests can interleave. The
+// TokenStorage call (Save / Get / Stat) and every lock operation the stores perform inside a call
+// (the in-memory store's RWMutex, bbolt's transaction locks - made visible by the build overlay,
+// see hooks.go), so that a call that is not atomic in itself is explored too. The
 // stateless DFS of /verif/mc/sched explores every interleaving with at most B preemptions
 // (B = 0,1,2 quick; 3 thorough). Token draws are an environment choice: the first draws of
 // every request can be forced equal, so that two requests try to issue the same token.
@@ -15,6 +16,7 @@ package main
 
 import (
 	"bytes"
+	"regexp"
 	"crypto/rand"
 	"fmt"
 	"os"
@@ -84,12 +86,12 @@ func concurrentScenarios(thorough bool) []cscenario {
 		{Name: "T3-detok-forced", Store: "memory", Forced: true, Threads: [][]creq{{{"tok", 0, v}}, {{"tok", 0, v}}, {{"detok-first", 0, ""}}}},
 		{Name: "T2-same-enc", Store: "memory+enc", Threads: [][]creq{{{"tok", 0, v}}, {{"tok", 0, v}}}},
 		{Name: "T2-consistent-vs-random", Store: "memory", Forced: true, Threads: [][]creq{{{"tok", 0, v}}, {{"tok-random", 0, w}}}},
+		{Name: "T2-same-bolt", Store: "bolt", Threads: [][]creq{{{"tok", 0, v}}, {{"tok", 0, v}}}},
 	}
 	if thorough {
 		sc = append(sc,
 			cscenario{Name: "T3-same", Store: "memory", Threads: [][]creq{{{"tok", 0, v}}, {{"tok", 0, v}}, {{"tok", 0, v}}}},
 			cscenario{Name: "T2-two-each-forced", Store: "memory", Forced: true, Threads: [][]creq{{{"tok", 0, v}, {"tok", 0, w}}, {{"tok", 0, w}, {"tok", 0, v}}}},
-			cscenario{Name: "T2-same-bolt", Store: "bolt", Threads: [][]creq{{{"tok", 0, v}}, {{"tok", 0, v}}}},
 			cscenario{Name: "T2-cross-forced-bolt", Store: "bolt", Forced: true, Threads: [][]creq{{{"tok", 0, v}}, {{"tok", 0, w}}}},
 		)
 	}
@@ -108,6 +110,7 @@ func (sc cscenario) build(env *cEnv, ks interface {
 	GetClientIDSymmetricKey([]byte) ([]byte, error)
 }) sched.Scenario {
 	return func(s *sched.Scheduler) func(x *sched.Execution) []string {
+		cLocks = map[interface{}]*sched.Lock{}
 		rnd := detrand.New("c10-concurrent/" + sc.Name)
 		// forced draws: the first 16 draws of every thread return the same bytes for all threads
 		// (index-dependent), later draws come from the stream
@@ -283,6 +286,7 @@ type concurrentReplay struct {
 }
 
 func phaseConcurrent(r *ev.Run) {
+	installLockHooks()
 	saved := rand.Reader
 	defer func() { rand.Reader = saved }()
 	detrand.Install(detrand.New("c10-concurrent-keys"))
@@ -359,8 +363,11 @@ func phaseConcurrent(r *ev.Run) {
 	r.Set("concurrent_scenarios", len(scs))
 }
 
+var quotedValue = regexp.MustCompile(`"[^"]*"`)
+
 func keyOf(f string) string {
-	b := []byte(f)
+	// values (tokens) are not part of a finding key
+	b := []byte(quotedValue.ReplaceAllString(f, "<value>"))
 	for i, c := range b {
 		if c == ' ' {
 			b[i] = '_'
